@@ -10,7 +10,7 @@
 //! - `Context` - stack for `Block state` of each functions body state.
 //! - `Errors` - semantic analyzes errors.z
 
-use crate::ast::{self, CodeLocation, GetLocation, GetName, MAX_PRIORITY_LEVEL_FOR_EXPRESSIONS};
+use crate::ast::{self, CodeLocation, GetLocation, GetName};
 use crate::types::block_state::BlockState;
 use crate::types::expression::{
     Expression, ExpressionResult, ExpressionResultValue, ExpressionStructValue,
@@ -1438,89 +1438,77 @@ where
 
     /// # Expression operation priority
     /// Fold expression priority.
-    /// Pass expressions tree from max priority level to minimum
-    /// priority level. If expression priority for concrete branch
-    /// founded, it's folded to leaf (same as bracketing).
+    /// The flat expression chain `v0 op1 v1 ... opN vN` folded to the
+    /// expressions tree: operation with higher priority binds tighter,
+    /// operations with equal priority are left associative. Every folded
+    /// branch represented as sub-expression (same as bracketing).
     ///
     /// ## Return
     /// New folded expressions tree.
     fn expression_operations_priority(
         data: ast::Expression<'_, I, E>,
     ) -> ast::Expression<'_, I, E> {
-        let mut data = data;
-        for priority in (0..=MAX_PRIORITY_LEVEL_FOR_EXPRESSIONS).rev() {
-            data = Self::fetch_op_priority(data, priority);
-        }
-        data
-    }
-
-    /// Fetch expression operation priories and fold it.
-    /// Expressions folded by operations priority. For that expressions
-    /// tree folded each branch of tree to leaf by priority operation
-    /// level. The most striking image is bracketing an expression with
-    /// a higher priority, and build tree based on that.
-    ///
-    /// For example: expr = expr1 OP1 expr2 - it has 2 branches
-    /// if expr2 contain subbranch (for example: `expr2 OP2 expr3`) we trying
-    /// to find priority level for current pass. And if `priority_level == OP1`
-    /// - fold it to leaf.
-    /// NOTICE: expr1 can't contain subbranches by design. So we pass
-    /// expression tree from left to right.
-    /// If priority level not equal, we just return income expression, or
-    /// if it has subbranch - launch fetching subbranch
-    fn fetch_op_priority(
-        data: ast::Expression<'_, I, E>,
-        priority_level: u8,
-    ) -> ast::Expression<'_, I, E> {
-        // Check is expression contains right side with operation
-        if let Some((op, expr)) = data.clone().operation {
-            // Check is right expression contain subbranch (sub operation)
-            if let Some((next_op, next_expr)) = expr.operation.clone() {
-                // Check incoming expression operation priority level
-                if op.priority() == priority_level {
-                    // Fold expression to leaf - creating new expression as value
-                    let expression_value =
-                        ast::ExpressionValue::Expression(Box::new(ast::Expression {
-                            expression_value: data.expression_value,
-                            operation: Some((
-                                op,
-                                Box::new(ast::Expression {
-                                    expression_value: expr.expression_value,
-                                    operation: None,
-                                }),
-                            )),
-                        }));
-                    // Fetch next expression branch
-                    let new_expr = Self::fetch_op_priority(*next_expr, priority_level);
-                    // Create new expression with folded `expression_value`
+        // Fold `left op right` to the leaf (same as bracketing)
+        fn fold_to_leaf<'a, I: SemanticContextInstruction, E: ExtendedExpression<I>>(
+            values: &mut Vec<ast::ExpressionValue<'a, I, E>>,
+            operations: &mut Vec<ast::ExpressionOperations>,
+        ) {
+            if let (Some(right), Some(left), Some(op)) =
+                (values.pop(), values.pop(), operations.pop())
+            {
+                values.push(ast::ExpressionValue::Expression(Box::new(
                     ast::Expression {
-                        expression_value,
-                        operation: Some((next_op, Box::new(new_expr))),
-                    }
-                } else {
-                    // If priority not equal for current level just
-                    // fetch right side of expression for next branches
-                    let new_expr =
-                        if next_op.priority() > op.priority() && next_expr.operation.is_none() {
-                            // Pack expression to leaf
-                            ast::Expression {
-                                expression_value: ast::ExpressionValue::Expression(expr),
+                        expression_value: left,
+                        operation: Some((
+                            op,
+                            Box::new(ast::Expression {
+                                expression_value: right,
                                 operation: None,
-                            }
-                        } else {
-                            Self::fetch_op_priority(*expr, priority_level)
-                        };
-                    // Rebuild expression tree
-                    ast::Expression {
-                        expression_value: data.expression_value,
-                        operation: Some((op, Box::new(new_expr))),
-                    }
-                }
-            } else {
-                data
+                            }),
+                        )),
+                    },
+                )));
             }
-        } else {
-            data
+        }
+
+        let mut values = vec![data.expression_value];
+        let mut operations: Vec<ast::ExpressionOperations> = vec![];
+        let mut next = data.operation;
+        while let Some((op, expr)) = next {
+            let expr = *expr;
+            // All previous operations with the same or higher priority
+            // should be folded before the current operation
+            while operations
+                .last()
+                .is_some_and(|prev| prev.priority() >= op.priority())
+            {
+                fold_to_leaf(&mut values, &mut operations);
+            }
+            operations.push(op);
+            values.push(expr.expression_value);
+            next = expr.operation;
+        }
+        // Fold all operations except the root operation
+        while operations.len() > 1 {
+            fold_to_leaf(&mut values, &mut operations);
+        }
+        let right = values.pop();
+        match (values.pop(), operations.pop(), right) {
+            (Some(left), Some(op), Some(right)) => ast::Expression {
+                expression_value: left,
+                operation: Some((
+                    op,
+                    Box::new(ast::Expression {
+                        expression_value: right,
+                        operation: None,
+                    }),
+                )),
+            },
+            (_, _, Some(value)) => ast::Expression {
+                expression_value: value,
+                operation: None,
+            },
+            _ => unreachable!(),
         }
     }
 }
